@@ -70,20 +70,35 @@ def run_property(mod, tier, seed, replay=None):
         print("ERROR: model driver does not build:\n" + out_model[-3000:])
         broken_obligations.append("model driver failed to build")
 
-    # 3. the tie
+    # 3. the tie (possibly several stages: a module may derive follow-up requests from earlier answers)
+    def answer_all(ls):
+        mls = [l[7:] if l.startswith("@model ") else l for l in ls]
+        m = core.run_model(mls) if ok_model else ["bad-request"] * len(ls)
+        idx = [i for i, l in enumerate(ls) if not l.startswith("@model ")]
+        c_part = core.run_impl([ls[i] for i in idx], "checked")
+        r_part = core.run_impl([ls[i] for i in idx], "release")
+        c = ["@model"] * len(ls); r = ["@model"] * len(ls)
+        for j, i in enumerate(idx):
+            c[i] = c_part[j]; r[i] = r_part[j]
+        return m, c, r
     if replay:
         payload = json.load(open(replay))
         lines = payload.get("requests", [])
     else:
         lines = mod.requests(tier, rng)
     tA = time.time()
-    model = core.run_model(lines) if ok_model else ["bad-request"] * len(lines)
-    tB = time.time()
-    checked = core.run_impl(lines, "checked")
-    release = core.run_impl(lines, "release")
+    model, checked, release = answer_all(lines)
+    stage = 1
+    while hasattr(mod, "followup") and not replay and stage < 6:
+        more = mod.followup(stage, lines, model, checked, release, tier, rng)
+        if not more:
+            break
+        m2, c2, r2 = answer_all(more)
+        lines += more; model += m2; checked += c2; release += r2
+        stage += 1
     tC = time.time()
     dis = core.compare(lines, model, checked, release) if ok_model else []
-    log("tie: %d requests, model %.1fs, impl %.1fs, %d disagreements" % (len(lines), tB - tA, tC - tB, len(dis)))
+    log("tie: %d requests, %d stage(s), %.1fs, %d disagreements" % (len(lines), stage, tC - tA, len(dis)))
 
     # 3b. the model itself is answerable to external oracles (hashlib, KAT files) where the module has one
     if ok_model and hasattr(mod, "expected"):
@@ -101,9 +116,13 @@ def run_property(mod, tier, seed, replay=None):
     pv = []
     if hasattr(mod, "violated"):
         for i, ln in enumerate(lines):
+            if checked[i] == "@model":
+                continue
             msg = mod.violated(ln, checked[i], release[i])
             if msg:
                 pv.append((i, msg))
+    if hasattr(mod, "violated_all"):
+        pv += mod.violated_all(lines, model, checked, release)
     # expand sweep disagreements to a concrete input, then evaluate the predicate there
     extra = []
     for (i, kind) in dis[:8]:
@@ -115,11 +134,9 @@ def run_property(mod, tier, seed, replay=None):
     if (dis or broken_obligations) and hasattr(mod, "search"):
         extra += mod.search(tier, rng)
     if extra:
-        em = core.run_model(extra, shards=1) if ok_model else ["bad-request"] * len(extra)
-        ec = core.run_impl(extra, "checked", shards=1)
-        er = core.run_impl(extra, "release", shards=1)
+        em, ec, er = answer_all(extra)
         for j, ln in enumerate(extra):
-            msg = mod.violated(ln, ec[j], er[j]) if hasattr(mod, "violated") else None
+            msg = mod.violated(ln, ec[j], er[j]) if hasattr(mod, "violated") and ec[j] != "@model" else None
             if msg:
                 pv.append((len(lines) + j, msg))
         lines = lines + extra; model += em; checked += ec; release += er
